@@ -15,6 +15,7 @@ import numpy as np
 from mdsim import core
 from mdsim.props import _ds
 from mdsim.seams import disk as sdisk
+from mdsim.seams import mem as smem
 
 PROP = "C05"
 LEVEL = "exploration"
@@ -23,7 +24,7 @@ RUNS = {"quick": 300, "thorough": 10000}
 JOB_TIMEOUT = 900.0
 COMPONENTS = {
     "real": ["MazeDataset.serialize/_serialize_full/_serialize_minimal/_serialize_minimal_soln_cat/load", "MazeDataset.save/read", "MazeDatasetCollection serialize/load/save/read", "zanj.ZANJ save/read", "stdlib zipfile", "filters used to build inputs"],
-    "stub": ["archive file object (FaultyFile, fault-free)", "clock seen by zanj/zipfile (SimClock)"],
+    "stub": ["archive file object (FaultyFile, fault-free)", "clock seen by zanj/zipfile (SimClock)", "contents of np.empty() memory in the dataset serialiser (seed-derived garbage pattern: padding must never leak into loaded data)"],
 }
 RULE = (
     "one run = one history of ~6-14 operations (make/filter/collect/strip/threshold/in-memory round trip in each format/save/overwrite/"
@@ -141,7 +142,7 @@ def st_segment(ops, base_dir, clock, files_model):
         return minimal and len(ds) == 0
 
     try:
-        with sdisk.Installed(dk, clk):
+        with sdisk.Installed(dk, clk), smem.Installed(clock.get("mem", 0)):
             for op in ops:
                 name = op[0]
                 if name == "threshold":
@@ -341,7 +342,7 @@ def gen_history(rng: random.Random, tier: str) -> dict:
         if op[0] == "read":
             op = [op[0], op[1], op[2], seen_restart]
         out.append(op)
-    return {"ops": out, "clock": {"t0": float(rng.randrange(400_000_000, 4_000_000_000)), "steps": [rng.choice([0.0, 1.0, -3600.0, 0.5]) for _ in range(3)]}}
+    return {"ops": out, "clock": {"t0": float(rng.randrange(400_000_000, 4_000_000_000)), "steps": [rng.choice([0.0, 1.0, -3600.0, 0.5]) for _ in range(3)], "mem": rng.choice([0, 255, rng.randrange(1, 2**31)])}}
 
 
 def gen_specs(rng: random.Random, tier: str, n: int) -> list[dict]:
